@@ -2,7 +2,7 @@
 # confirm_seed.sh <prop> <n>: confirm a seeded change in its scratch worktree /tmp/mut/<prop>:
 #   compiles (both feature sets), suite green with the change, demo fails with / passes without.
 # Output: /tmp/mut/out/<prop>/confirm_<n>.json
-P=$1; N=$2; W=/tmp/mut/$P; O=/tmp/mut/out/$P
+P=$1; N=$2; W=${MUT_W:-/tmp/mut}/$P; O=${MUT_O:-/tmp/mut/out}/$P
 export CARGO_NET_OFFLINE=true
 cd $W || exit 2
 git checkout -q -- . ; git clean -fdq tests/ 2>/dev/null
